@@ -23,6 +23,10 @@ type findingDef struct {
 }
 
 var findingDefs = []findingDef{
+	{"KF-CIRCLE-DROPS-MEMBERS", "a Feature in the Circle convention keeps only the centre's x,y and the radius: id, bbox, other members of the feature or of its properties, members of the point geometry and z/m ordinates are dropped by Parse and absent from JSON()",
+		[]string{"*:circle-drops-members"}},
+	{"KF-MIXED-DIMS-REJECTED", "a LineString / Polygon / Multi* coordinate member whose first position has two ordinates and a later one three or four is rejected ('invalid coordinates') although every position is an array of two to four numbers; deliberate in the parser (dimensionality is fixed by the first position)",
+		[]string{"*:must-accept-rejected-mixed-dims"}},
 	{"KF-ORDER-DEPENDENT-CONTAINS", "polygon-contains-line/rect answers depend on the order in which the segment search reports hits (ringContainsSegment keeps the index of the first boundary segment the endpoint lies on, and its case analysis branches on it), so for self-touching rings with >= 17/33 points the answer differs between no index, r-tree and quadtree although the search itself reports exactly the same set; e.g. the 33-point 'comb' ring and the line (0,4)-(10,0)",
 		[]string{"C04:predicate-index-dependence", "C04:predicate-move-dependence"}},
 	{"KF-LINE-CONTAINS", "Line.ContainsLine (also reached by Line.ContainsRect/ContainsPoly for zero-area shapes) walks the receiver's segments and is wrong both ways: true when a later segment of the other line leaves the receiver mid-segment, false when a segment spans two collinear receiver segments or the receiver starts with a repeated vertex",
